@@ -279,13 +279,20 @@ def check_contract_case(inp, mod=None):
     n = inp['n_iter'] if inp['fn'] == 'nuts' else inp['n_samples']
     tgt = TARGETS[inp['target']][0]
     x0 = np.array(inp['x0'], dtype=float)
+    t0 = tgt(x0)
     try:
         a = run(mod, inp)
         b = run(mod, inp, perturb_global=True)
     except native.NativeTimeout as e:
         return dict(what='timeout: %s' % e, input=inp)
+    except ValueError as e:
+        if math.isinf(t0):
+            return None
+        return dict(what='ValueError for a start with non-infinite log-target: %s' % e, input=inp)
     except Exception as e:
         return dict(what='%s: %s (valid start, log-target %r)' % (type(e).__name__, e, tgt(x0)), input=inp)
+    if math.isinf(t0):
+        return dict(what='no ValueError although the start has infinite log-target %r' % t0, input=inp)
     if a.shape != (n,) + x0.shape:
         return dict(what='length: returned shape %s, requested %s' % (a.shape, (n,) + x0.shape), input=inp)
     if not np.array_equal(a, b):
@@ -327,6 +334,9 @@ def contract_cases(tier, seed):
                 yield dict(fn='metropolis', target=name, x0=start_point(d, name).tolist(), sigma=[0.8] * d, n_samples=25, warmup=5, seed=sd)
                 for n_iter, n_adapt in ((12, None), (9, 3), (6, 0), (5, 9)) + (() if tier == 'quick' else ((40, None), (25, 10))):
                     yield dict(fn='nuts', target=name, x0=start_point(d, name).tolist(), n_iter=n_iter, n_adapt=n_adapt, seed=sd)
+    # start validity: a start with infinite log-target must be refused with ValueError, a valid one on the boundary accepted
+    for name, x0 in (('box', [2.0]), ('box', [0.3, -1.5]), ('mixed', [1.5]), ('mixed', [0.91]), ('box', [1.5]), ('box', [-1.0, 1.5])):
+        yield dict(fn='nuts', target=name, x0=x0, n_iter=6, n_adapt=2, stepsize=0.3, seed=seed)
     # chain / adaptation lengths at the edges: short chains with the default n_adapt, n_adapt = n_iter - 1
     for n_iter, n_adapt in ((1, None), (2, None), (3, None), (3, 2), (5, 4), (4, 4), (1, 5)):
         yield dict(fn='nuts', target='gauss', x0=[0.1, -0.2], n_iter=n_iter, n_adapt=n_adapt, seed=seed)
